@@ -494,8 +494,9 @@ func (h *harness) isCases(r *rand.Rand, nseq int) {
 		var snaps []snapT
 		for k := 0; k < 2; k++ {
 			a, b, c := mk()
-			// by log matching a snapshot is determined by its (index, term): two different ones never share both
-			for k == 1 && a == snaps[0].idx && b == snaps[0].term && string(c) != string(snaps[0].data) {
+			// snapshots cover committed prefixes, and the committed prefix up to an index is unique:
+			// two different snapshots never have the same last included index
+			for k == 1 && a == snaps[0].idx && (b != snaps[0].term || string(c) != string(snaps[0].data)) {
 				a, b, c = mk()
 			}
 			snaps = append(snaps, snapT{a, b, c})
@@ -507,6 +508,8 @@ func (h *harness) isCases(r *rand.Rand, nseq int) {
 		offsets := []int{0, 0}
 		lastWritten := -1
 		parked := false
+		d10 := false
+		var partialIdx, partialTerm uint64
 		for k := 0; k < nreq && !parked; k++ {
 			w := r.Intn(2)
 			sn := snaps[w]
@@ -542,8 +545,19 @@ func (h *harness) isCases(r *rand.Rand, nseq int) {
 			q := raft.InstallSnapshotRequest{LeaderID: strconv.Itoa(1 + r.Intn(2)), Term: term, LastIncludedIndex: sn.idx, LastIncludedTerm: sn.term,
 				Configuration: confBytes, Offset: int64(off), Bytes: sn.data[off:end], Done: end == len(sn.data)}
 			offsets[w] = end
+			if partialIdx > q.LastIncludedIndex && partialTerm == term {
+				d10 = true
+			}
 			cl := &sim.Call{Kind: "IS", IS: q, Src: q.LeaderID}
 			res := h.deliver(n, cl)
+			if dmp := raft.VerifDump(n.R); dmp.PartialOpen {
+				if partialIdx != dmp.PartialMeta.LastIncludedIndex {
+					partialTerm = dmp.Term // the node's term when this partial file was created
+				}
+				partialIdx = dmp.PartialMeta.LastIncludedIndex
+			} else {
+				partialIdx = 0
+			}
 			if cl.Delivered && cl.HandlerOK {
 				lastWritten = int(cl.Resp.(raft.InstallSnapshotResponse).BytesWritten)
 			}
@@ -556,7 +570,13 @@ func (h *harness) isCases(r *rand.Rand, nseq int) {
 			if len(n.FSM.Ops) > 0 && len(h.viol) < 10 {
 				got := string(snapData(n.FSM.Ops))
 				if got != string(snaps[0].data) && got != string(snaps[1].data) {
-					h.viol = append(h.viol, fmt.Sprintf("C11 state machine restored from bytes that are neither snapshot (index %d: %v) nor (index %d: %v): got %v; state {%s} requests {%s}",
+					// signature of known finding D10: within one term a chunk of an OLDER snapshot (smaller last
+					// included index) arrived while the file of a newer one was being received
+					tag := ""
+					if d10 {
+						tag = "[older-chunk-into-newer-partial] "
+					}
+					h.viol = append(h.viol, fmt.Sprintf("C11 "+tag+"state machine restored from bytes that are neither snapshot (index %d: %v) nor (index %d: %v): got %v; state {%s} requests {%s}",
 						snaps[0].idx, snaps[0].data, snaps[1].idx, snaps[1].data, []byte(got), s.spec(), strings.Join(args[1:], " ")))
 				}
 			}
